@@ -67,6 +67,8 @@ static size_t gen_input(vrng *r, uint8_t *b, int fam, size_t cap, int hist_bits)
 		for (int k = 0; k < 6; k++) { size_t at = vrn(r, (uint32_t) n), l = vrn(r, 3000); if (at + l > n) l = n - at; vr_fill(r, b + at, l); }
 		for (int k = 0; k < 8; k++) { size_t l = 20 + vrn(r, 400), d = (vrn(r, 2) ? 32768 : 65536) + vrr(r, -300, 300), at = vrn(r, (uint32_t) n); if (at + d + l <= n) memcpy(b + at + d, b + at, l); }
 		} break;
+	case 9: { /* a few literals, then long runs of one byte (matches of 258+ starting right after a literal), repeated */
+		n = 0; int segs = 1 + vrn(r, 4); for (int k = 0; k < segs; k++) { size_t pl = 1 + vrn(r, 20), rl = 259 + vrn(r, 400); if (n + pl + rl > cap) { if (k) break; rl = cap > pl + 265 ? cap - pl - vrn(r, (uint32_t) (cap - pl - 264)) : cap - pl; } for (size_t i = 0; i < pl; i++) b[n++] = (uint8_t) ('a' + vrn(r, 26)); memset(b + n, vrn(r, 3) ? 'Q' + (int) vrn(r, 3) : (int) vrn(r, 256), rl); n += rl; } } break;
 	default: { /* cross-flush redundancy: the same phrases over and over */
 		n = vrn(r, (uint32_t) (cap > 60000 ? 60000 : cap)); size_t pl = 1024 + vrn(r, 7000); static uint8_t ph[8200]; vr_fill(r, ph, pl); if (vrn(r, 2)) markov(r, ph, pl);
 		for (size_t o = 0; o < n; o += pl) memcpy(b + o, ph, n - o < pl ? n - o : pl);
@@ -479,15 +481,15 @@ static void gen_case(long idx, vrng *r, ccase *c, const char *prop)
 {
 	base_case(c, r);
 	size_t cap = vopt.thorough && vrn(r, 40) == 0 ? MAXIN : 262144;
-	c->infam = vrn(r, 9);
+	c->infam = vrn(r, 10); if (c->infam == 9 && vrn(r, 2) && strcmp(prop, "C10")) c->infam = 8;
 	if (!strcmp(prop, "C07")) { c->oneshot = 0; c->fkind = vrn(r, 6); c->ikind = vrn(r, NICH + 2); c->okind = vrn(r, NOCH + 5); c->infam = vrn(r, 3) ? 1 + vrn(r, 8) : 8; if (vrn(r, 2)) cap = 20000; }
 	if (!strcmp(prop, "C14")) { c->oneshot = 0; c->fkind = 1 + vrn(r, 5); c->infam = vrn(r, 4) ? 8 : 4; c->okind = vrn(r, 3) ? NOCH + 1 : (int) vrn(r, NOCH + 3); c->ikind = vrn(r, 2) ? 13 + vrn(r, 6) : NICH + 1; cap = 60000; }
 	if (!strcmp(prop, "C17")) { c->hist_bits = vrn(r, 8) ? 9 + vrn(r, 7) : 0; c->infam = vrn(r, 3) ? 5 : 7; cap = 262144; if (vrn(r, 3) == 0) { c->oneshot = 0; } }
 	if (!strcmp(prop, "C11")) { c->wrapper = 1 + vrn(r, 4); }
-	if (!strcmp(prop, "C10")) { c->oneshot = vrn(r, 4) != 0; if (!c->oneshot) { c->okind = NOCH + 2 + vrn(r, 3); if (vrn(r, 3) == 0) c->okind = vrn(r, 3); c->ikind = NICH + 1; c->fkind = vrn(r, 3); c->eospol = vrn(r, 3); cap = 3000; } c->infam = vrn(r, 5) == 0 ? 0 : vrn(r, 2) ? 3 : (int) vrn(r, 9); }
+	if (!strcmp(prop, "C10")) { c->oneshot = vrn(r, 4) != 0; if (!c->oneshot) { c->okind = NOCH + 2 + vrn(r, 3); if (vrn(r, 3) == 0) c->okind = vrn(r, 3); c->ikind = NICH + 1; c->fkind = vrn(r, 3); c->eospol = vrn(r, 3); cap = 3000; } c->infam = vrn(r, 5) == 0 ? 0 : vrn(r, 3) == 0 ? 9 : vrn(r, 2) ? 3 : (int) vrn(r, 10); }
 	c->n = gen_input(r, inbuf, c->infam, cap, c->hist_bits);
 	if (!strcmp(prop, "C10") && c->oneshot) {
-		size_t b = onebound(c->n, c->wrapper); int m = vrn(r, 10);
+		size_t b = onebound(c->n, c->wrapper); int m = vrn(r, 10); if (c->n <= 2000 && vrn(r, 2)) m = 7;   /* small inputs: any output size below the bound */
 		size_t a = m < 5 ? b + vrr(r, -9, 9) : m < 6 ? hdr_len_of(c->wrapper) + vrr(r, -1, 1) : m < 7 ? (size_t) (int[]){ 0, 1, 7, 8 }[vrn(r, 4)] : m < 9 ? vrn(r, (uint32_t) b + 17) : b + 16;
 		if ((long) a < 0) a = 0;
 		c->os_avail_out = a + 1; c->os_flush = vrn(r, 3) ? NO_FLUSH : FULL_FLUSH; c->os_eos = 1;
@@ -536,6 +538,12 @@ int main(int argc, char **argv)
 			vrng r; vr_seed(&r, vopt.seed, 50, idx);
 			ccase c;
 			if (!strcmp(prop, "C10") && q % 10 == 9) { run_invalid(idx, &r); continue; }
+			if (!strcmp(prop, "C10") && q % 40 == 3) {   /* systematic: one small input, EVERY avail_out from 0 to bound+8, output ending at a guard page */
+				base_case(&c, &r); c.oneshot = 1; c.infam = (int[]){ 9, 9, 1, 2, 4 }[vrn(&r, 5)]; c.n = gen_input(&r, inbuf, c.infam, 700, 0); if (c.n > 700) c.n = 700; c.hist_bits = 0; c.os_flush = vrn(&r, 4) ? NO_FLUSH : FULL_FLUSH; c.os_eos = 1; c.chunked_mem = 0;
+				size_t b = onebound(c.n, c.wrapper);
+				for (size_t a = 0; a <= b + 8 && v_nviol <= v_viol_cap; a++) { c.os_avail_out = a + 1; describe(idx, &c, lname); vrng r2; vr_seed(&r2, vopt.seed, 51, idx * 4096 + a); run_oneshot(idx, &c, &r2, lname); }
+				v_count("oneshot", "systematic_avail_out_sweeps", 1); continue;
+			}
 			if (!strcmp(prop, "C17") && q % 12 == 11) { run_dict_extras(idx, &r); continue; }
 			gen_case(idx, &r, &c, prop); describe(idx, &c, lname);
 			if (!strcmp(prop, "C14") && q % 7 == 6) {   /* one-shot chains: also constant-byte and tiny inputs (dedicated stateless paths) */
